@@ -77,6 +77,29 @@ def escape_only_400(v, out, clause='escape-only-400-class'):
     v.check(clause, out.exc is None or out.exc.isa(v.real('falcon:HTTPBadRequest')))
 
 
+def port_text(src):
+    """The port part of host [":" port] (RFC 3986 3.2.3, RFC 7239 6: node-port), None when the value has none."""
+    if src.startswith('['):
+        if contains(src, ']:'):
+            return src[src.rfind(']:') + 2:]
+        return None
+    name, sep, rest = src.partition(':')
+    if not sep or contains(rest, ':'):
+        return None
+    return rest
+
+
+def has_non_numeric_port(src):
+    """Harness-side fork: the value carries a port that int() does not accept (empty, obfuscated "_x", letters, ...)."""
+    if src is None:
+        return False
+    p = port_text(src)
+    return p is not None and bool(Not(py_int_ok(p)))
+
+
+NON_NUMERIC_PORT = 'non-numeric-port-escape-only-400-class'
+
+
 def header_name_of(exc):
     """The header name an HTTPInvalidHeader / HTTPMissingHeader was raised for (second / first positional argument)."""
     if exc.cls.__name__ == 'HTTPMissingHeader':
@@ -253,8 +276,21 @@ def _split_model(ctx, s, sep, maxsplit=-1):
     return out + [rest]
 
 
+_ASCII = None
+
+
+def _case_axioms(s_t, r_t, f):
+    """str.lower / str.upper keep ASCII text ASCII and of the same length (Unicode standard, Basic Latin block)."""
+    global _ASCII
+    if _ASCII is None:
+        _ASCII = z3.Star(z3.Range(z3.StringVal(chr(0)), z3.StringVal(chr(127))))
+    return [mk_bool(z3.Implies(z3.InRe(s_t, _ASCII), z3.And(z3.InRe(r_t, _ASCII), z3.Length(r_t) == z3.Length(s_t))))]
+
+
 def _base_setup(reg, ex):
     reg.int_parser = int_model
+    ex.str_axioms['lower'] = _case_axioms
+    ex.str_axioms['upper'] = _case_axioms
     ex.codec_handler = latin1_codec
     ex.str_hooks = {'partition': _hook_partition, 'find': _hook_find, 'rfind': _hook_rfind, 'slice': _hook_slice}
     ex.split_handler = _split_model
@@ -969,9 +1005,10 @@ def host_header(v):
 
 def spec_host_port(v, env, out, what):
     """`what` is 'host' or 'port'.  RFC 3986 authority reading (host [":" port]) of the Host header, PEP 3333 SERVER_* otherwise."""
-    escape_only_400(v, out)
     dflt = default_port(env)
     raw = env.get('HTTP_HOST')
+    # the same sentence, named apart for Host values whose port is not a number (so that a finding there suppresses only itself)
+    escape_only_400(v, out, NON_NUMERIC_PORT if has_non_numeric_port(raw) else 'escape-only-400-class')
 
     def expect(clause, host, port):
         want = host if what == 'host' else port
@@ -1062,7 +1099,7 @@ def wsgi_subdomain(v):
     req = wsgi_req(v, env)
     h = v.call(req, target=WREQ + '.host')
     out = v.call(req)
-    escape_only_400(v, out)
+    escape_only_400(v, out, NON_NUMERIC_PORT if has_non_numeric_port(env.get('HTTP_HOST')) else 'escape-only-400-class')
     if h.exc is not None:
         v.check('host-failure-propagates-unchanged', out.exc is not None and out.exc.cls is h.exc.cls)
         return
@@ -1148,13 +1185,14 @@ def spec_relative(env, path, qs):
     return Ite(Len(qs) > 0, root + path + '?' + qs, root + path)
 
 
-URL_KEYS = ['HTTP_FORWARDED', 'HTTP_X_FORWARDED_PROTO', 'HTTP_X_FORWARDED_HOST']
+URL_KEYS = [[], ['HTTP_FORWARDED'], ['HTTP_X_FORWARDED_PROTO', 'HTTP_X_FORWARDED_HOST'], ['HTTP_FORWARDED', 'HTTP_X_FORWARDED_PROTO', 'HTTP_X_FORWARDED_HOST']]
 
 
 def _url_property(prop, field, forwarded):
     def h(v):
-        opt = ['SCRIPT_NAME'] + (URL_KEYS if forwarded else [])
-        env = server_env(v, optional=opt)
+        env = server_env(v, optional=['SCRIPT_NAME'])
+        for k in (URL_KEYS[v.choose(4, 'forwarding-headers')] if forwarded else []):
+            env[k] = v.str(k)
         path, qs = v.str('path'), v.str('query_string')
         req = wsgi_req(v, env, path=path, query_string=qs)
         parser = forwarded_parser(v, max_hops=1, fields=('host', 'scheme'))
@@ -1234,7 +1272,7 @@ def spec_node_host(src):
 ROUTE_KEYS = ['HTTP_FORWARDED', 'HTTP_X_FORWARDED_FOR', 'HTTP_X_REAL_IP', 'REMOTE_ADDR']
 
 
-def spec_access_route(v, env, hops, remote, xff_pieces):
+def spec_access_route(v, env, hops, remote, xff_pieces, drop_empty_remote=False):
     if 'HTTP_FORWARDED' in env:
         base = [spec_node_host(h.src) for h in hops if h.src is not None]
     elif 'HTTP_X_FORWARDED_FOR' in env:
@@ -1244,7 +1282,7 @@ def spec_access_route(v, env, hops, remote, xff_pieces):
     else:
         base = []
     if not base:
-        return [remote]
+        return [] if drop_empty_remote and not _nonempty(remote) else [remote]
     if base[-1] != remote:
         return base + [remote]
     return base
@@ -1294,9 +1332,9 @@ def _access_route(v, retry):
             if out.exc is not None:
                 again = v.call(req)
                 v.check('failed-access-leaves-no-partial-route-cached', again.exc is not None and again.exc.cls is out.exc.cls)
-                v.cover('failed')
             return
-        escape_only_400(v, out)
+        bad = 'HTTP_FORWARDED' in env and any(has_non_numeric_port(h.src) for h in hops_of(parser))
+        escape_only_400(v, out, NON_NUMERIC_PORT if bad else 'escape-only-400-class')
         n1 = len(parser.calls)
         if out.exc is not None:
             return
@@ -1699,8 +1737,9 @@ def asgi_scheme(v):
 
 def _asgi_host_port(what):
     def h(v):
-        scope = asgi_scope(v, client=False)
         headers, view = asgi_headers(v, optional=['host'])
+        # with a Host header only "secure or not" matters (default port); without one the server entry of the scope is read
+        scope = asgi_scope(v, client=False) if not headers else ({'type': 'http', 'scheme': 'https'} if v.choose(2, 'secure') else {'type': 'http'})
         out = v.call(asgi_req(v, headers, scope))
         env = wsgi_view(view, scope)
         env['wsgi.url_scheme'] = 'https' if a_secure(scope) else 'http'  # the default port follows "secure or not"
@@ -1757,10 +1796,11 @@ def asgi_forwarded_host(v):
 
 def _asgi_url_property(prop, field, forwarded):
     def h(v):
-        scope = asgi_scope(v, client=False)
-        if v.choose(2, 'scope-has-root_path'):
-            scope['root_path'] = v.str('root_path')
-        headers, view = asgi_headers(v, optional=['host'] + (['forwarded', 'x-forwarded-proto', 'x-forwarded-host'] if forwarded else []))
+        shape = v.choose(3, 'scope-shape')
+        scope = [{'type': 'http'}, {'type': 'http', 'scheme': 'https', 'server': (v.str('server_name'), 443)},
+                 {'type': 'http', 'scheme': 'http', 'server': (v.str('server_name'), 8000), 'root_path': v.str('root_path')}][shape]
+        fwd = [[], ['forwarded'], ['x-forwarded-proto', 'x-forwarded-host'], ['forwarded', 'x-forwarded-proto', 'x-forwarded-host']]
+        headers, view = asgi_headers(v, optional=['host'], always=fwd[v.choose(4, 'forwarding-headers')] if forwarded else [])
         path, qs = v.str('path'), v.str('query_string')
         req = asgi_req(v, headers, scope, path=path, query_string=qs)
         parser = forwarded_parser(v, max_hops=1, fields=('host', 'scheme'))
@@ -1822,16 +1862,14 @@ def _asgi_access_route(v, mode):
             if out.exc is not None:
                 again = v.call(req)
                 v.check('failed-access-leaves-no-partial-route-cached', again.exc is not None and again.exc.cls is out.exc.cls)
-                v.cover('failed')
             return
-        escape_only_400(v, out)
+        bad = src == 0 and any(has_non_numeric_port(h.src) for h in hops_of(parser))
+        escape_only_400(v, out, NON_NUMERIC_PORT if bad else 'escape-only-400-class')
         n1 = len(parser.calls)
         if out.exc is not None:
             return
-        env = dict(view)
-        want = spec_access_route(v, env, hops_of(parser), client, xff)
-        if 'client' in scope and not _nonempty(client) and want == [client]:
-            want = []  # documented ASGI difference: an empty client address is not appended to an empty route
+        # ASGI difference (source comment): an empty client address is not put into an otherwise empty route
+        want = spec_access_route(v, dict(view), hops_of(parser), client, xff, drop_empty_remote=True)
         v.check('route-is-forwarded-then-x-forwarded-for-then-x-real-ip-then-client', same_value(list(out.value), want))
         v.check('result-cached', v.get(req, '_cached_access_route') is out.value)
         for k in list(headers):
